@@ -285,6 +285,14 @@ def run(tier, seed):
     # every token-prefix of a slice (thorough: of all), single-token edits of a slice
     from .. import corpus
     smp = list(corpus.samples())
+    # layouts the generators do not derive: a function head under conditional compilation (two heads, one brace), a
+    # macro-decorated definition, a prototype that lost its semicolon in front of a definition
+    extra = [("cond.c", "#if 0\nint\tf(int a)\n#else\nint\tf(int a, int b)\n#endif\n{\n\treturn (a);\n}\n"),
+             ("cond.c", "#if 0\nint\tf(int a)\n#else\nint\tf(int a, int b)\n{\n#endif\n\treturn (a);\n}\n"),
+             ("deco.c", "API_EXPORT VISIBILITY(default) /* public */\nint\tf(int a)\n{\n\treturn (a);\n}\n"),
+             ("lost.c", "int\tg(int a) // no semicolon\nint\tf(int a)\n{\n\treturn (a);\n}\n"),
+             ("cond.h", "#ifndef COND_H\n# define COND_H\n# ifdef A\nint\tf(int a);\n# else\nint\tf(int a, int b)\n# endif\n;\n#endif\n")]
+    smp = smp + extra
     seeds_k0 = seeds + smp
     ptasks += [(f, t, "lineprefix0", 1, 0, 1) for f, t in smp]
     tp = smp if tier == "thorough" else corpus.sample_slice(seed, 8)
